@@ -6,6 +6,7 @@
 -/
 import CM.Proofs.Sim
 import CM.Proofs.Raise
+import CM.Proofs.OnceRaise
 namespace CM
 
 /-! ### from `Reaches` to `run` -/
@@ -205,5 +206,54 @@ theorem getHash_correct (g : Graph) (ok : GraphOK g) (env : String → Option Va
         right
         simp only [PostErr] at hpe
         rw [hden_eq g _ hc.outRange, hpe]; rfl
+
+/-! ### at most once -/
+
+def Outcome.mem : Outcome → Mem
+  | .next s | .done _ s | .raised _ s => s.mem
+
+theorem init_preL (g : Graph) (env : String → Option Val) (w : World) (hlog : w.log = []) (t : Task) (hp : Bool) (b : Nat) (hb : budOK b t) :
+    PreL g (g.initMem env w) Ghost.none hp b 0 (cost g Ghost.none hp b t) t := by
+  have hc : ∀ j, calls (g.initMem env w) j = 0 := by intro j; simp [calls, Graph.initMem, hlog]
+  exact ⟨fun j _ => by rw [hc j]; exact Nat.zero_le _, by rw [hc]; omega, hb⟩
+
+/-- **At most once.**  Started with an empty call log, a call of the compiled function — whether it returns or
+raises — leaves at most one logged call per node: no user function is executed twice on behalf of the same node. -/
+theorem call_once (g : Graph) (ok : GraphOK g) (env : String → Option Val) (w : World) (hc : CallOK g env) (hlog : w.log = []) :
+    ∃ N o steps, (∀ fuel, N ≤ fuel → g.call env w fuel = some (o, steps)) ∧ ∀ j, calls o.mem j ≤ 1 := by
+  have ht := topo_of_ok g ok
+  have hi := init_cinv g ht env w hc
+  have hact := output_active g ht
+  have hl := init_preL g env w hlog (.value g.output) true 0 trivial
+  have hK : cost g Ghost.none true 0 (.value g.output) ≤ 1 := by
+    have := hb_vb_le_one g ok g.output
+    simp only [cost, pendV, pendH, Ghost.none, b2n, Bool.not_false, ↓reduceIte, Nat.one_mul]
+    omega
+  have h0 : ∀ j, calls (g.initMem env w) j = 0 := by intro j; simp [calls, Graph.initMem, hlog]
+  obtain ⟨f, hf⟩ := (node_halts g ok g.output).2 (g.initMem env w)
+  have hsim := sim g f (.value g.output) (g.initMem env w)
+  cases hq : big g f (.value g.output) (g.initMem env w) with
+  | fuel => simp [hq, BRes.isFuel] at hf
+  | ok x m' =>
+    have hreach := hsim.1 x m' hq [] [.ret] _ rfl
+    obtain ⟨N, steps, hN⟩ := run_of_reaches g hreach (.done x ⟨[], [], m'⟩) rfl (by simp [step]) 0
+    obtain ⟨G', _, pl⟩ := big_inv g ok f (.value g.output) true _ Ghost.none x m' 0 0 _ hi hact hl hq
+    refine ⟨N, .done x ⟨[], [], m'⟩, steps, fun fuel hfuel => by simp only [Graph.call, initSt_eq]; exact hN fuel hfuel, ?_⟩
+    intro j
+    show calls m' j ≤ 1
+    by_cases hj : j ≤ g.output
+    · exact post_le_one g ok (t := .value g.output) pl hK j hj
+    · rw [pl.frame j (by simp only [Task.node]; omega), h0 j]; omega
+  | raised e m' =>
+    obtain ⟨s', s'', hreach, hstep, hmem⟩ := hsim.2 e m' hq [] [.ret] _ rfl
+    obtain ⟨N, steps, hN⟩ := run_of_reaches g hreach (.raised e s'') rfl hstep 0
+    have hr := big_raised_once g ok f (.value g.output) true _ Ghost.none e m' 0 0 _ hi hact hl hK hq
+    refine ⟨N, .raised e s'', steps, fun fuel hfuel => by simp only [Graph.call, initSt_eq]; exact hN fuel hfuel, ?_⟩
+    intro j
+    show calls s''.mem j ≤ 1
+    rw [hmem]
+    by_cases hj : j ≤ g.output
+    · exact hr.1 j hj
+    · rw [hr.2 j (by simp only [Task.node]; omega), h0 j]; omega
 
 end CM
